@@ -274,7 +274,7 @@ DAG_STRATA = [
     "if_dead_inner", "if_with_initializer", "optional_inputs", "attrs",
     "const_nan_inf", "const_neg_zero_d", "const_1d_small", "const_large", "const_int8_double_bool", "const_string",
     "const_string_inf", "const_value_attrs", "names_dotted", "names_digit", "names_keyword", "names_collide", "names_shadow",
-    "names_attr", "names_short", "names_dotted_io", "multi_output", "no_inputs",
+    "names_attr", "names_short", "names_dotted_io", "multi_output", "no_inputs", "operator_with_attr", "omitted_output_digit_names",
 ]
 OUTSIDE_STRATA = ["out_sequence", "out_sequence_io", "out_scan", "out_sparse_init", "out_graph_attr"]
 
@@ -671,6 +671,33 @@ def dag_model(stratum, rnd, plain_names=False, plain_consts=False):
         s1 = gb.add("ReduceSum", [tk[0]], [(F, S0)], keepdims=0)[0]
         gb.add("Add", [c, s1], [(F, V3)])
         extra_out.append(tk[1])
+    elif s == "operator_with_attr":
+        # operators that the exporter may render as Python operators (use_operators=True) but that carry an attribute which
+        # changes their meaning: Mod[fmod=1] on negative integers and on floats
+        a = gb.fvec()
+        ai = gb.add("Cast", [gb.add("Mul", [a, gb.const(np.array(4.0, dtype=np.float32))], [(F, V3)])[0]], [(I64, V3)], to=I64)[0]
+        mi = gb.add("Mod", [ai, gb.const(np.array([3, -3, 5], dtype=np.int64))], [(I64, V3)], fmod=1)[0]
+        mj = gb.add("Mod", [ai, gb.const(np.array([-4, 3, -2], dtype=np.int64))], [(I64, V3)], fmod=0)[0]
+        mf = gb.add("Mod", [gb.fvec(), gb.const(np.array([1.5, -2.0, 0.75], dtype=np.float32))], [(F, V3)], fmod=1)[0]
+        t = gb.add("Add", [gb.add("Cast", [gb.add("Add", [mi, mj], [(I64, V3)])[0]], [(F, V3)], to=F)[0], mf], [(F, V3)])[0]
+        gb.add("Sub", [t, gb.fvec()], [(F, V3)])
+    elif s == "omitted_output_digit_names":
+        # a node with an OMITTED non-trailing optional output next to values whose ONNX names are bare digits
+        # (what many exporters write): the placeholder for the omitted output must not capture such a name
+        w = gb.const(np.array([0.5, -1.0, 2.0], dtype=np.float32), as_init=True)
+        t1 = gb.add("Mul", [gb.fvec(), w], [(F, V3)])[0]
+        t2 = gb.add("Add", [t1, gb.fvec()], [(F, V3)])[0]
+        ax0 = gb.const(np.array([0], dtype=np.int64))
+        x2 = gb.add("Unsqueeze", [gb.fvec(), ax0], [(F, (1, 3))])[0]
+        yv, iv = (gb.dag.fresh("ln_y"), F, (1, 3)), (gb.dag.fresh("ln_inv"), F, (1, 1))
+        gb.nodes.append(helper.make_node("LayerNormalization", [x2[0], w[0]], [yv[0], "", iv[0]], axis=-1, epsilon=1e-3))
+        gb.pool += [yv, iv]
+        gb.local += [yv, iv]
+        y1 = gb.add("Squeeze", [yv, ax0], [(F, V3)])[0]
+        r = gb.add("Add", [y1, t1], [(F, V3)])[0]              # reads the digit-named value AFTER the node with the omitted output
+        r = gb.add("Mul", [r, gb.add("Squeeze", [iv], [(F, S0)])[0]], [(F, V3)])[0]
+        gb.add("Sub", [r, t2], [(F, V3)])
+        meta["digit_names"] = {t1[0]: "1", t2[0]: "0", x2[0]: "2"}
     elif s.startswith("const_"):
         if plain_consts:
             gb.steps(3)
@@ -688,6 +715,8 @@ def dag_model(stratum, rnd, plain_names=False, plain_consts=False):
         [helper.make_tensor_value_info(v[0], v[1], list(v[2])) for v in inputs],
         [helper.make_tensor_value_info(v[0], v[1], list(v[2])) for v in outs], initializer=gb.inits)
     model = helper.make_model(graph, opset_imports=[helper.make_opsetid("", OPSET)], ir_version=8)
+    if meta.get("digit_names") and not plain_names:
+        _rename_graph(model.graph, meta["digit_names"])
     if s.startswith("names_") and not plain_names:
         scheme = s[len("names_"):]
         meta["names"] = apply_names(model, scheme, rnd)
